@@ -222,7 +222,7 @@ INVARIANT Exclusive
         rep = (key * (len(d) // len(key) + 1))[: len(d)]
         return (int.from_bytes(d, "big") ^ int.from_bytes(rep, "big")).to_bytes(len(d), "big") if d else b""
 
-    for size in ([65536, 131073, 8388608 + 5] if q else [65535, 65536, 65537, 131073, 262147, 1048577, 8388607, 8388608, 8388609, 16777216 + 3, 33554432 + 1]):
+    for size in ([65536, 131073, 8388608 + 5, 16777216 + 3] if q else [65535, 65536, 65537, 131073, 262147, 1048575, 1048576, 1048577, 8388607, 8388608, 8388609, 16777216, 16777216 + 3, 33554432 + 1, 67108864 + 5]):
         d = rng.randbytes(size)
         for key in ((b"\x5a", b"abc", rng.randbytes(4), rng.randbytes(7), rng.randbytes(251)) if size > 2**20 else (b"\x5a", b"\x01\x02", b"abc", rng.randbytes(4), rng.randbytes(5), rng.randbytes(16), rng.randbytes(251))):
             o = core.outcome(utils.xor, d, key)
